@@ -1,5 +1,392 @@
 /-
-  Props/C17.lean — property theorems for C17 (stub; to be filled in).
+  Props/C17.lean — C17: versioned conversion composes, reaches the latest version, leaves its input intact.
+
+  Model: Sem/Convert.lean (`convert` = `_convert`, `convertDict` = `convert_dict`, `deserVersioned` = the
+  `Versioned` prologue of `deserialize_structure_internal`, `versionedInitKw` = `Versioned.__init__`).
+  Spec: Spec/ConvertSpec.lean (`upgrade`: the documented "apply mapping number v while v ≤ len" process, driven
+  by the document's own version; `wfHistory`: no mapping has an entry for the top-level `version` key).
+
+  All theorems quantify over every history `ms : List Mapping` (any length, any nesting of `._mapper`
+  entries, any Constant / Deleted / move / FunctionCall entries), every JSON document and every split point.
+  They are proved by induction on the list of mappings; the only facts needed about `_convert` itself are the
+  frame lemma `convert_frame` (Lemmas/Convert.lean, by induction over the three loops) and "a dict goes to a dict".
+
+  The pinned code violates the full statement in three places (model and code agree, see the counterexample
+  theorems and `known_findings_C17.json`):
+   * a document *without* a `version` key is treated as version 1 but comes out with version `len ms` instead of
+     `len ms + 1` (`x.get("version", 0) + 1`), so a second conversion re-applies the last mapping;
+   * a mapping that has an entry for `version` clobbers the bookkeeping;
+   * `deserialize_structure_internal` reads `cls._versions_mapping` without a default, so a `Versioned` class that
+     relies on the default empty history (as `Versioned.__init__` allows) cannot be deserialized at all.
 -/
+import TypedpyModel.Lemmas.Convert
 namespace Typedpy.C17
+open Typedpy.Convert
+
+/-! ### list slicing -/
+
+theorem drop_take_split {α} : ∀ (l : List α) (i k : Nat),
+    l.drop i = (l.take k).drop i ++ l.drop (i + ((l.take k).drop i).length)
+  | [], i, k => by simp
+  | x :: l, i, 0 => by simp
+  | x :: l, 0, k + 1 => by
+    have := drop_take_split l 0 k
+    simp only [List.drop_zero, Nat.zero_add] at this
+    simp only [List.take_succ_cons, List.drop_zero, List.length_cons, Nat.zero_add, List.cons_append,
+      List.drop_succ_cons]
+    rw [← this]
+  | x :: l, i + 1, k + 1 => by
+    have := drop_take_split l i k
+    simp only [List.take_succ_cons, List.drop_succ_cons]
+    rw [show i + 1 + ((l.take k).drop i).length = (i + ((l.take k).drop i).length) + 1 by omega,
+      List.drop_succ_cons]
+    exact this
+
+/-! ### version reached -/
+
+/-- general form: from any start version `v ≥ 1` the result carries `max v (len ms + 1)` -/
+theorem convert_version_max (ms : List Mapping) (d r : Json) (v : Int) (hw : wfHistory ms = true)
+    (hv : docVersion d = some v) (h1 : 1 ≤ v) (h : convertDict d ms = .ok r) :
+    docVersion r = some (max v ((ms.length : Int) + 1)) := by
+  rw [convertDict_drop ms hv h1] at h
+  have := runSteps_version _ d r v (wfHistory_drop _ hw) hv h
+  rw [this, List.length_drop]
+  congr 1
+  omega
+
+/-- **convert_version**: a document at version `v ∈ 1..len+1` is converted to a document whose version is
+    `len ms + 1`, for every well-formed history -/
+theorem convert_version (ms : List Mapping) (d r : Json) (v : Int) (hw : wfHistory ms = true)
+    (hv : docVersion d = some v) (h1 : 1 ≤ v) (h2 : v ≤ (ms.length : Int) + 1)
+    (h : convertDict d ms = .ok r) : docVersion r = some ((ms.length : Int) + 1) := by
+  rw [convert_version_max ms d r v hw hv h1 h]
+  congr 1
+  omega
+
+/-- the executable law the driver evaluates on the real code's result is the theorem's conclusion -/
+theorem convert_version_law (ms : List Mapping) (d r : Json) (hw : wfHistory ms = true)
+    (hd : inDomain ms d = true) (h : convertDict d ms = .ok r) : versionLaw ms r = true := by
+  simp only [inDomain] at hd
+  cases hv : docVersion d with
+  | none => simp [hv] at hd
+  | some v =>
+    simp only [hv, Bool.and_eq_true, decide_eq_true_eq] at hd
+    simp [versionLaw, convert_version ms d r v hw hv hd.1 hd.2 h]
+
+/-! ### exactly the mappings from the document's version onward, in order -/
+
+theorem upgrade_eq_runSteps (ms : List Mapping) (hw : wfHistory ms = true) :
+    ∀ (n : Nat) (d : Json) (v : Int), docVersion d = some v → 1 ≤ v →
+      n = ((ms.length : Int) + 1 - v).toNat →
+      runSteps (ms.drop (v - 1).toNat) d = upgrade ms n d
+  | 0, d, v, _, h1, hn => by
+    have : ms.length ≤ (v - 1).toNat := by omega
+    rw [List.drop_eq_nil_of_le this]; rfl
+  | n + 1, d, v, hv, h1, hn => by
+    have hlt : (v - 1).toNat < ms.length := by omega
+    have hm : ms[(v - 1).toNat]? = some ms[(v - 1).toNat] := List.getElem?_eq_getElem hlt
+    have hwm : writesKey "version" ms[(v - 1).toNat] = false := by
+      have := (List.all_eq_true.mp hw) ms[(v - 1).toNat] (List.getElem_mem hlt)
+      simpa using this
+    rw [List.drop_eq_getElem_cons hlt]
+    simp only [runSteps, upgrade, hv, hm, show ¬ v < 1 by omega, if_false, stepSpec]
+    cases hc : convert ms[(v - 1).toNat] d with
+    | error e => simp
+    | ok d' =>
+      rcases docVersion_obj hv with ⟨kvs, rfl, hg⟩
+      rcases convert_frame _ kvs d' hwm hc with ⟨kvs', rfl, hg'⟩
+      rw [hg] at hg'
+      simp only [bindE_ok, bump, hg', versionInt]
+      have hv' : docVersion (.obj (set "version" (.int (v + 1)) kvs')) = some (v + 1) :=
+        docVersion_of_get (get_set_same _ _ _)
+      have := upgrade_eq_runSteps ms hw n _ (v + 1) hv' (by omega) (by omega)
+      rw [← this]
+      congr 2
+      omega
+
+/-- **convert_is_upgrade**: `convert_dict` (one slice by the start version) is the documented upgrade
+    process (look at the document's current version, apply that version's mapping, repeat): it applies
+    exactly the mappings `v, v+1, …, len` in order -/
+theorem convert_is_upgrade (ms : List Mapping) (d : Json) (v : Int) (hw : wfHistory ms = true)
+    (hv : docVersion d = some v) (h1 : 1 ≤ v) :
+    convertDict d ms = upgrade ms ((ms.length : Int) + 1 - v).toNat d := by
+  rw [convertDict_drop ms hv h1]
+  exact upgrade_eq_runSteps ms hw _ d v hv h1 rfl
+
+/-! ### composition over every split point -/
+
+/-- **convert_compose**: converting with the first `k` mappings and then onward with the full list is
+    converting at once — every history, every start version `v ≥ 1`, every split point `k` (also `k` beyond
+    the list or before the start version) -/
+theorem convert_compose (ms : List Mapping) (d d1 : Json) (v : Int) (k : Nat) (hw : wfHistory ms = true)
+    (hv : docVersion d = some v) (h1 : 1 ≤ v) (hs : convertDict d (ms.take k) = .ok d1) :
+    convertDict d1 ms = convertDict d ms := by
+  rw [convertDict_drop _ hv h1] at hs
+  have hv1 := runSteps_version _ d d1 v (wfHistory_drop _ (wfHistory_take k hw)) hv hs
+  rw [convertDict_drop ms hv h1, convertDict_drop ms hv1 (by omega),
+    drop_take_split ms (v - 1).toNat k, runSteps_append, hs, bindE_ok]
+  congr 2
+  omega
+
+/-- if the first stage raises, converting at once raises the same exception -/
+theorem convert_compose_error (ms : List Mapping) (d : Json) (v : Int) (k : Nat) (e : Err)
+    (hv : docVersion d = some v) (h1 : 1 ≤ v) (hs : convertDict d (ms.take k) = .error e) :
+    convertDict d ms = .error e := by
+  rw [convertDict_drop _ hv h1] at hs
+  rw [convertDict_drop ms hv h1, drop_take_split ms (v - 1).toNat k, runSteps_append, hs, bindE_error]
+
+/-! ### latest version: identity, idempotence -/
+
+/-- **convert_latest_id**: a document already at (or beyond) the latest version is returned unchanged; no
+    hypothesis on the history -/
+theorem convert_latest_id (ms : List Mapping) (d : Json) (v : Int) (hv : docVersion d = some v)
+    (h : (ms.length : Int) + 1 ≤ v) : convertDict d ms = .ok d := by
+  rw [convertDict_drop ms hv (by omega)]
+  have : ms.length ≤ (v - 1).toNat := by omega
+  rw [List.drop_eq_nil_of_le this]; rfl
+
+/-- converting a converted document changes nothing -/
+theorem convert_idempotent (ms : List Mapping) (d r : Json) (v : Int) (hw : wfHistory ms = true)
+    (hv : docVersion d = some v) (h1 : 1 ≤ v) (h : convertDict d ms = .ok r) : convertDict r ms = .ok r :=
+  convert_latest_id ms r _ (convert_version_max ms d r v hw hv h1 h) (by omega)
+
+/-! ### inputs unchanged -/
+
+/-- **convert_pure**: the post-states of the document and of the mapping list are the arguments (the model
+    threads them Aeneas-style; that the code indeed never writes through them is what the harness's deep
+    snapshots and alias probe check on every case) -/
+theorem convert_pure (d : Json) (ms : List Mapping) :
+    (convertDictSt d ms).2 = (d, ms) ∧ (convertDictSt d ms).1 = convertDict d ms := ⟨rfl, rfl⟩
+
+/-- the empty mapping copies: `_convert(x, {})` is `x` for every JSON value -/
+theorem convert_empty_mapping (d : Json) : convert [] d = .ok d := convert_nil d
+
+/-- **convert_frame**: keys a mapping has no entry for are carried over untouched by `_convert` -/
+theorem convert_frame (q : String) (m : Mapping) (kvs : Obj) (r : Json) (hw : writesKey q m = false)
+    (h : convert m (.obj kvs) = .ok r) : ∃ kvs', r = .obj kvs' ∧ get q kvs' = get q kvs :=
+  Typedpy.Convert.convert_frame m kvs r hw h
+
+/-- **deleted clause of the step contract**: after `_convert`, a key the mapping marks `Deleted` is absent -/
+theorem convert_deleted_absent (k : String) (m : Mapping) (kvs : Obj) (r : Json)
+    (hm : (k, Entry.deleted) ∈ m) (h : convert m (.obj kvs) = .ok r) :
+    ∃ kvs', r = .obj kvs' ∧ get k kvs' = none := by
+  simp only [convert, convShape] at h
+  rcases bindE_eq_ok h with ⟨o1, _, h2⟩
+  cases h2
+  have hc : (k, CEntry.deleted) ∈ compileMap m := by
+    have := mem_compileMap m hm
+    simpa [Entry.compile] using this
+  exact ⟨_, rfl, loop3_deleted _ _ (Or.inl hc)⟩
+
+/-- **constant clause of the step contract**: after `_convert`, a key whose only entry in the mapping is
+    `Constant(v)` holds `v` -/
+theorem convert_constant_set (k : String) (v : Json) (m : Mapping) (kvs : Obj) (r : Json)
+    (hm : (k, Entry.const v) ∈ m) (hu : ∀ e, (k, e) ∈ m → e = Entry.const v)
+    (h : convert m (.obj kvs) = .ok r) : ∃ kvs', r = .obj kvs' ∧ get k kvs' = some v := by
+  simp only [convert, convShape] at h
+  rcases bindE_eq_ok h with ⟨o1, h1, h2⟩
+  cases h2
+  have hc : (k, CEntry.const v) ∈ compileMap m := by
+    have := mem_compileMap m hm
+    simpa [Entry.compile] using this
+  have huc : ∀ ce, (k, ce) ∈ compileMap m → ce = CEntry.const v := by
+    intro ce hce
+    rcases mem_compileMap_inv m hce with ⟨e, he, rfl⟩
+    rw [hu e he]; simp [Entry.compile]
+  refine ⟨_, rfl, ?_⟩
+  rw [loop3_const _ _ huc, loop2_const _ _ huc]
+  exact loop1_const _ kvs kvs o1 huc h1 (Or.inl hc)
+
+/-! ### `Versioned` deserialization and construction -/
+
+/-- **versioned_deser_equiv**: deserializing a `Versioned` class from a document at any version `v ≥ 1` is
+    deserializing it from the converted latest-version document (`rest` = the remainder of
+    `deserialize_structure_internal`, any function of the converted input) -/
+theorem versioned_deser_equiv {α} (rest : Json → α) (ms : List Mapping) (d d' : Json) (v : Int)
+    (hw : wfHistory ms = true) (hv : docVersion d = some v) (h1 : 1 ≤ v)
+    (h : convertDict d ms = .ok d') :
+    deserVersioned rest (some ms) d' = deserVersioned rest (some ms) d := by
+  have hv' := convert_version_max ms d d' v hw hv h1 h
+  have hid := convert_idempotent ms d d' v hw hv h1 h
+  rcases docVersion_obj hv with ⟨kvs, rfl, hg⟩
+  rcases docVersion_obj hv' with ⟨kvs', rfl, hg'⟩
+  cases ms with
+  | nil =>
+    have : convertDict (.obj kvs) [] = .ok (.obj kvs) := convert_latest_id [] _ v hv (by simpa using h1)
+    rw [this] at h; cases h; rfl
+  | cons m r => simp only [deserVersioned, hg, hg', h, hid, bindE_ok]
+
+/-- and it yields `rest` of the converted document -/
+theorem versioned_deser_result {α} (rest : Json → α) (ms : List Mapping) (d d' : Json) (v : Int)
+    (hv : docVersion d = some v) (h : convertDict d ms = .ok d') :
+    deserVersioned rest (some ms) d = .ok (rest d') := by
+  rcases docVersion_obj hv with ⟨kvs, rfl, hg⟩
+  cases ms with
+  | nil =>
+    simp only [convertDict, startVersion, hg, versionInt, bindE_ok, pySliceFrom, List.drop_nil, ite_self,
+      runSteps] at h
+    cases h
+    simp only [deserVersioned, hg]
+  | cons m r => simp only [deserVersioned, hg, h, bindE_ok]
+
+/-- **new_instance_latest**: `Versioned.__init__` forces `version = len(_versions_mapping) + 1` (1 without the
+    attribute), whatever the caller passed, and that value is a positive integer -/
+theorem new_instance_latest (ms : Option (List Mapping)) (kw : Obj) :
+    get "version" (versionedInitKw ms kw) = some (.int (((ms.getD []).length : Int) + 1))
+    ∧ (0 : Int) < ((ms.getD []).length : Int) + 1 :=
+  ⟨get_set_same _ _ _, by omega⟩
+
+/-! ### the full statement, what the pinned code violates, and the partial theorems -/
+
+/-- full-strength version statement: every document `convert_dict` accepts as being at version `v ∈ 1..len+1`
+    (a document without a `version` key is accepted as version 1) comes out at `len ms + 1` -/
+def VersionStatement : Prop :=
+  ∀ (ms : List Mapping) (d r : Json) (v : Int), effectiveVersion d = some v → 1 ≤ v →
+    v ≤ (ms.length : Int) + 1 → convertDict d ms = .ok r → effectiveVersion r = some ((ms.length : Int) + 1)
+
+/-- full-strength composition statement -/
+def ComposeStatement : Prop :=
+  ∀ (ms : List Mapping) (d d1 : Json) (v : Int) (k : Nat), effectiveVersion d = some v → 1 ≤ v →
+    convertDict d (ms.take k) = .ok d1 → convertDict d1 ms = convertDict d ms
+
+/-- full-strength deserialization statement for the default (empty) history of a `Versioned` class that does
+    not define `_versions_mapping`: a version-1 document is latest and deserializes as itself -/
+def DeserDefaultHistoryStatement : Prop :=
+  ∀ (rest : Json → Json) (d : Json), docVersion d = some 1 → deserVersioned rest none d = .ok (rest d)
+
+theorem effectiveVersion_of_docVersion {d : Json} {v : Int} (h : docVersion d = some v) :
+    effectiveVersion d = some v := by
+  rcases docVersion_obj h with ⟨kvs, rfl, hg⟩
+  simp [effectiveVersion, hg]
+
+/-- the statements restricted by the decidable exclusion of exactly the known-finding region
+    (`wfHistory ms` and "the document has an integer `version` key") -/
+theorem version_partial (ms : List Mapping) (d r : Json) (v : Int) (hw : wfHistory ms = true)
+    (hk : docVersion d = some v) (_ : effectiveVersion d = some v) (h1 : 1 ≤ v)
+    (h2 : v ≤ (ms.length : Int) + 1) (h : convertDict d ms = .ok r) :
+    effectiveVersion r = some ((ms.length : Int) + 1) :=
+  effectiveVersion_of_docVersion (convert_version ms d r v hw hk h1 h2 h)
+
+theorem compose_partial (ms : List Mapping) (d d1 : Json) (v : Int) (k : Nat) (hw : wfHistory ms = true)
+    (hk : docVersion d = some v) (_ : effectiveVersion d = some v) (h1 : 1 ≤ v)
+    (hs : convertDict d (ms.take k) = .ok d1) : convertDict d1 ms = convertDict d ms :=
+  convert_compose ms d d1 v k hw hk h1 hs
+
+/-- what the code does instead for a version-less document and a non-empty well-formed history: the result
+    version is `len ms`, one short -/
+theorem versionless_off_by_one (m : Mapping) (ms : List Mapping) (kvs : Obj) (r : Json)
+    (hw : wfHistory (m :: ms) = true) (hn : get "version" kvs = none)
+    (h : convertDict (.obj kvs) (m :: ms) = .ok r) : docVersion r = some ((m :: ms).length : Int) := by
+  simp only [convertDict, startVersion, hn, bindE_ok, pySliceFrom, Int.sub_self, Int.le_refl, if_true,
+    Int.toNat_zero, List.drop_zero, runSteps] at h
+  rcases bindE_eq_ok h with ⟨d', hc, h'⟩
+  rcases bindE_eq_ok h' with ⟨d'', hb, hr⟩
+  have hc' := wfHistory_cons hw
+  rcases Typedpy.Convert.convert_frame m kvs d' hc'.1 hc with ⟨kvs', rfl, hg'⟩
+  rw [hn] at hg'
+  simp only [bump, hg'] at hb
+  cases hb
+  have hv1 : docVersion (.obj (set "version" (.int 1) kvs')) = some 1 := docVersion_of_get (get_set_same _ _ _)
+  rw [runSteps_version ms _ r 1 hc'.2 hv1 hr]
+  simp only [List.length_cons]
+  congr 1
+  omega
+
+/-- counterexample 1 (finding `version-off-by-one:versionless-document`):
+    `convert_dict({"a": 1}, [{}])` returns `{"a": 1, "version": 1}` -/
+theorem version_counterexample_versionless : ¬ VersionStatement := by
+  intro h
+  have := h [[]] (.obj [("a", .int 1)]) (.obj [("a", .int 1), ("version", .int 1)]) 1 rfl (by decide)
+    (by decide) rfl
+  revert this; decide
+
+/-- counterexample 2 (finding `version-clobbered:mapping-writes-version`):
+    `convert_dict({"version": 1}, [{"version": Constant(7)}, {}])` returns `{"version": 9}` -/
+theorem version_counterexample_clobber : ¬ VersionStatement := by
+  intro h
+  have := h [[("version", .const (.int 7))], []] (.obj [("version", .int 1)]) (.obj [("version", .int 9)]) 1 rfl
+    (by decide) (by decide) rfl
+  revert this; decide
+
+/-- counterexample 3 (finding `compose-broken:versionless-document`): with `ms = [{"a": FunctionCall(add_one)}]`
+    and `d = {"a": 1}`, stage one gives `{"a": 2, "version": 1}`, whose conversion re-applies the mapping:
+    `{"a": 3, "version": 2}`, while converting at once gives `{"a": 2, "version": 1}` -/
+theorem compose_counterexample_versionless : ¬ ComposeStatement := by
+  intro h
+  have := h [[("a", .fn .addOne [])]] (.obj [("a", .int 1)]) (.obj [("a", .int 2), ("version", .int 1)]) 1 1 rfl
+    (by decide) rfl
+  have h2 : sameResult (convertDict (.obj [("a", .int 2), ("version", .int 1)]) [[("a", .fn .addOne [])]])
+      (convertDict (.obj [("a", .int 1)]) [[("a", .fn .addOne [])]]) = false := by decide
+  rw [this] at h2
+  revert h2; decide
+
+/-- counterexample 4 (finding `compose-broken:mapping-writes-version`): `ms = [{"version": Constant(5)}, {"a":
+    Constant(0)}]`, `d = {"version": 1}`, split after the first mapping: stage one gives `{"version": 6}`, which
+    is then "beyond latest" and returned as is, while converting at once gives `{"version": 7, "a": 0}` -/
+theorem compose_counterexample_clobber : ¬ ComposeStatement := by
+  intro h
+  have := h [[("version", .const (.int 5))], [("a", .const (.int 0))]] (.obj [("version", .int 1)])
+    (.obj [("version", .int 6)]) 1 1 rfl (by decide) rfl
+  have h2 : sameResult (convertDict (.obj [("version", .int 6)])
+        [[("version", .const (.int 5))], [("a", .const (.int 0))]])
+      (convertDict (.obj [("version", .int 1)]) [[("version", .const (.int 5))], [("a", .const (.int 0))]])
+      = false := by decide
+  rw [this] at h2
+  revert h2; decide
+
+/-- counterexample 5 (finding `deser-crash:versions-mapping-attribute-absent`): a `Versioned` class without
+    `_versions_mapping` raises AttributeError on `{"version": 1}` -/
+theorem deser_counterexample_no_attribute : ¬ DeserDefaultHistoryStatement := by
+  intro h
+  have := h id (.obj [("version", .int 1)]) rfl
+  simp [deserVersioned, Typedpy.Convert.get] at this
+
+/-- with the attribute present (even empty) the default-history statement holds -/
+theorem deser_default_history_partial {α} (rest : Json → α) (d : Json) (v : Int)
+    (hv : docVersion d = some v) : deserVersioned rest (some []) d = .ok (rest d) := by
+  rcases docVersion_obj hv with ⟨kvs, rfl, hg⟩
+  simp only [deserVersioned, hg]
+
+/-- the `Bool` comparison of outcomes used by the driver-evaluated laws means equality -/
+theorem beq_sound (a b : R Json) (h : sameResult a b = true) : a = b := sameResult_sound h
+
+/-! ### non-vacuity -/
+
+/-- a three-step history with a Constant, a nested `._mapper` over a list of sub-documents, a FunctionCall
+    with arguments, a dotted move and deletions -/
+def exHistory : List Mapping :=
+  [ [("j", .const (.int 100)),
+     ("items", .sub [("n", .fn .addOne []), ("tag", .const (.str "t"))])],
+    [("bar", .move ["old", "inner"]), ("old", .deleted), ("w", .fn .pair ["i", "j"])],
+    [("first", .move ["items", "n"]), ("i", .fn .wrap ["i"])] ]
+
+def exDoc : Json :=
+  .obj [("version", .int 1), ("i", .int 2),
+        ("items", .list [.obj [("n", .int 1)], .obj [("n", .int 5), ("z", .null)]]),
+        ("old", .obj [("inner", .list [.bool true])])]
+
+def exLatest : Json :=
+  .obj [("version", .int 4), ("i", .list [.int 2]),
+        ("items", .list [.obj [("n", .int 2), ("tag", .str "t")],
+                         .obj [("n", .int 6), ("z", .null), ("tag", .str "t")]]),
+        ("j", .int 100), ("w", .list [.int 2, .int 100]), ("bar", .list [.bool true]),
+        ("first", .list [.int 2, .int 6])]
+
+theorem laws_example :
+    wfHistory exHistory = true ∧ inDomain exHistory exDoc = true
+    ∧ sameResult (convertDict exDoc exHistory) (.ok exLatest) = true
+    ∧ versionLaw exHistory exLatest = true
+    ∧ (match convertDict exDoc (exHistory.take 1) with
+        | .ok d1 => sameResult (convertDict d1 exHistory) (convertDict exDoc exHistory)
+                     && sameResult (.ok d1) (.ok exLatest) == false
+        | .error _ => false) = true
+    ∧ (match convertDict exDoc (exHistory.take 2) with
+        | .ok d2 => sameResult (convertDict d2 exHistory) (convertDict exDoc exHistory)
+        | .error _ => false) = true
+    ∧ sameResult (convertDict exLatest exHistory) (.ok exLatest) = true
+    ∧ sameResult (upgrade exHistory 3 exDoc) (.ok exLatest) = true
+    ∧ sameResult (convertDict (.obj [("version", .int 1), ("items", .int 3)]) exHistory)
+        (.error .attrErr) = true := by
+  decide
+
 end Typedpy.C17
